@@ -6,7 +6,7 @@ ID = "C17"
 ML = "mC17"
 HARNESS = "harness/C17.c"
 SRCS = None
-EXTRA_LD = ["-Wl,--wrap=ppoll", "-Wl,--wrap=gettimeofday", "-Wl,--wrap=read"]
+EXTRA_LD = ["-Wl,--wrap=ppoll", "-Wl,--wrap=gettimeofday", "-Wl,--wrap=read", "-Wl,--wrap=waitpid"]
 LEVEL = "proof"
 CASE_TIMEOUT = 0.02
 RULE = ("case = callback table + script over the real toplevel instance (default event loop, mock terminal) under a "
@@ -73,6 +73,34 @@ def gen(tier, seed, info):
         yield "cb1=- %s d r0 t0:0:1" % pre                                # between iterations
     info["drop_reference_cases"] = ndrop
     n += ndrop
+    # ---- chain cases (coq/LoopChain.v): the walks that run callbacks while they follow a chain --
+    #      process watches (SIGCHLD dispatch with scripted waitpid, children that exited before
+    #      their watch was registered, cancel of the own / next / previous watch from a callback,
+    #      registration from a callback) and signal watches (direct dispatch)
+    nch = 0
+    pbody = ["-", "c0", "c1", "c2", "wp0:3", "wp1:3", "c1,wp2:3", "wp0:3,c2"]
+    for regs in ["wp0:1 wp2:2", "wp2:1 wp6:2 wp0:2", "wp1:1 wp0:2 wp2:1"]:
+        for b1 in pbody:
+            for b2 in ["-", "c0", "c2"]:
+                for ex in ["X0:1", "X0:1 X1:2", "X1:2 X0:1 X2:3", "X2:3", "X3:9 X0:1", "X3:9 X1:2 X0:1"]:
+                    for tail in ["H r0 H", "H H r0", "r0 H c1 H"]:
+                        nch += 1
+                        yield "WP cb1=%s cb2=%s cb3=- %s %s %s" % (b1, b2, regs, ex, tail)
+    for pre in ["X0:4", "X0:4 X1:5", "X1:5"]:
+        for regs in ["wp2:1", "wp2:1 wp6:2", "wp6:1 wp2:2 wp0:1"]:
+            for mid in ["", "c0", "c1", "H"]:
+                for b1 in ["-", "c0", "c1", "wp0:3"]:
+                    nch += 1
+                    yield "WP cb1=%s cb2=- cb3=- %s %s %s r0 X2:6 H r0" % (b1, pre, regs, mid)
+    sbody = ["-", "c0", "c1", "c2", "ws10:0:3", "ws10:1:3", "ws12:2:3", "c1,ws10:0:3", "ws10:1:3,c0"]
+    for regs in ["ws10:0:1 ws10:2:2", "ws10:2:1 ws12:6:2 ws10:0:2", "ws12:1:2 ws10:0:1 ws10:6:1"]:
+        for b1 in sbody:
+            for b2 in ["-", "c0", "c2", "ws10:0:3"]:
+                for tail in ["G10 G10", "G10 G12 G10", "G12 c1 G10"]:
+                    nch += 1
+                    yield "WS cb1=%s cb2=%s cb3=- %s %s" % (b1, b2, regs, tail)
+    info["chain_cases"] = nch
+    n += nch
     # ---- cancel whose UNBIND notification registers a replacement (re-entrancy of tickit_watch_cancel)
     nub = 0
     repl = ["t-500:0:0", "t0:0:0", "t500:0:0", "t1500:2:0", "t2500:0:0", "t3500:0:0", "l0:0", "l1:0", "l3:0", "wi0:1:4:0",
@@ -202,7 +230,8 @@ def classify(case, obs):
 
 def shrink(case):
     toks = case.split()
-    for i in range(len(toks)):
+    keep = 1 if toks and toks[0] in ("WP", "WS") else 0      # the model selector is not a shrinkable token
+    for i in range(keep, len(toks)):
         yield " ".join(toks[:i] + toks[i + 1:])
     for i, t in enumerate(toks):
         if (t.startswith("cb") or t.startswith("ub")) and "," in t:
